@@ -166,7 +166,7 @@ def chan(v):
 
 EXPR = {
     'Call': call,
-    'Index': lambda v: expr(v['left']) + ['['] + expr(v['index']) + [']'],
+    'Index': lambda v: expr(v['left']) + ['['] + expr(v['index']) + [OPTC, ']'],      # Index = "[" Expression [ "," ] "]", TypeArgs = "[" TypeList [ "," ] "]"
     'IndexList': lambda v: expr(v['left']) + ['['] + commas(v['indices'], expr) + [OPTC, ']'],
     'Slice': slice_,
     'Ident': ident,
